@@ -671,12 +671,13 @@ def worker(job):
             shapes = [Shape(2, 1, a) for a in range(max(1, nal))]
         if prop == 'C05':
             shapes = [Shape(1, 1, a) for a in range(max(1, nal))] + ([Shape(2, 2, 0), Shape(0, 0, 0)] if tier == 'thorough' or spec.family == 'dispatch' else [])
-        if prop == 'C04':
+        if prop in ('C04', 'C02', 'C03'):
             # payloads whose byte count crosses the signed/unsigned boundary of the length field's type
+            # (C02/C03 too: a decoder that uses the length it has read - to skip, to bound - meets the same boundary)
             lfs = [f for f in pk.fields if f.kind == 'lengthof']
             if lfs:
                 w = spec.resolve(lfs[0])[1]
-                big = {'u8': [114, 241], 'i8': [100]}.get(w, [])
+                big = {'u8': [114, 241], 'i8': [100]}.get(w, [100] if prop == 'C04' else [])   # 100: past the first 64-byte allocation of a Go bytes.Buffer
                 if tier == 'thorough' and w in ('u16',) and spec.name.startswith('len_u16_'):
                     big = big + [32800]
                 shapes = shapes + [Shape(n, 1, a) for n in big for a in range(max(1, nal))]
